@@ -19,6 +19,12 @@ search : the definitions evaluated in `fractions.Fraction` on M[L1][:, L2] block
          dtypes / layouts (bit-identical) and rescaled by powers of two (exactly equivariant);
          returned arrays not aliased; library state intact after the history; every
          CoupledClimateNetwork wrapper incl. link_attribute; subnetwork; betweenness
+round 4: cross_/internal_/nsi_cross_betweenness inside the model (C03's kernel model behind the
+         delegation chain), compared with the implementation on every case and with the published
+         double sum inside Lean on a sample; whole-network relations of closeness / efficiency /
+         n.s.i. closeness row by row, connected or not; Network.global_efficiency /
+         closeness(attr) / interregional_betweenness / nsi_betweenness / path_lengths (BFS) in
+         the `net` correspondence; wrapped integer accumulation (sumW) against numpy
 """
 import contextlib
 import io
@@ -187,6 +193,43 @@ class Oracle:
 
     def internal_path_lengths(self, L1, L2, D=None):
         return blk(D or self.Du, L1, L1)
+
+    # betweenness of the groups (round 4): the published double sum over enumerated path counts
+    def _betw(self, L1, L2, w):
+        """b_v = (1/w_v) sum_{t in L2} sum_{s in L1, s != v != t} w_t w_s sigma_ts(v) / sigma_ts with
+        sigma = number of shortest paths weighted by the product of the weights of all their
+        nodes; sigma_ts(v) = sigma_tv sigma_vs / w_v"""
+        n, D, A = self.n, self.Du, self.A
+        sg = [[Fr(0)] * n for _ in range(n)]
+        for s in range(n):
+            order = sorted((t for t in range(n) if D[s][t] is not None), key=lambda t: D[s][t])
+            sg[s][s] = Fr(w[s])
+            for t in order:
+                if t != s:
+                    sg[s][t] = w[t] * sum(sg[s][u] for u in range(n)
+                                          if A[u][t] and D[s][u] is not None
+                                          and D[s][u] + 1 == D[s][t])
+        S1 = set(L1)
+        out = [Fr(0)] * n
+        for t in L2:                      # a repeated target counts repeatedly (loop over targets)
+            for s in S1:                  # the sources are a set (mask)
+                if s == t or D[t][s] is None:
+                    continue
+                for v in range(n):
+                    if v in (s, t) or D[t][v] is None or D[v][s] is None:
+                        continue
+                    if D[t][v] + D[v][s] == D[t][s]:
+                        out[v] += w[t] * w[s] * sg[t][v] * sg[v][s] / w[v] / sg[t][s]
+        return [out[v] / w[v] for v in range(n)]
+
+    def cross_betweenness(self, L1, L2):
+        return self._betw(L1, L2, [Fr(1)] * self.n)
+
+    def internal_betweenness(self, L1, L2):
+        return self._betw(L1, L1, [Fr(1)] * self.n)
+
+    def nsi_cross_betweenness(self, L1, L2):
+        return self._betw(L1, L2, self.w)
 
     # link counts, degrees
     def number_cross_links(self, L1, L2):
@@ -423,8 +466,10 @@ CLUSTERING = ["internal_global_clustering", "cross_transitivity", "cross_transit
               "nsi_cross_transitivity"]
 # measures whose definition is symmetric in the two groups (undirected networks);
 # 'T' = the matrix result is transposed
+BETWEENNESS = ["cross_betweenness", "internal_betweenness", "nsi_cross_betweenness"]
 SYMMETRIC = {"number_cross_links": "", "cross_link_density": "", "cross_average_path_length": "",
              "global_efficiency": "", "nsi_cross_edge_density": "",
+             "cross_betweenness": "", "nsi_cross_betweenness": "",
              "nsi_cross_average_path_length": "", "cross_adjacency": "T",
              "cross_adjacency_sparse": "T",
              "cross_link_attribute": "T", "cross_path_lengths": "T"}
@@ -487,6 +532,9 @@ def impl_table(net, L1, L2, attr=None):
         "nsi_cross_closeness_centrality": lambda: net.nsi_cross_closeness_centrality(L1, L2),
         "nsi_internal_closeness_centrality": lambda: net.nsi_internal_closeness_centrality(L1),
         "nsi_cross_average_path_length": lambda: net.nsi_cross_average_path_length(L1, L2),
+        "cross_betweenness": lambda: net.cross_betweenness(L1, L2),
+        "internal_betweenness": lambda: net.internal_betweenness(L1),
+        "nsi_cross_betweenness": lambda: net.nsi_cross_betweenness(L1, L2),
     }
     return t
 
@@ -713,8 +761,10 @@ def run(ctx):
         "Network.path_lengths / igraph distances (C03) are not modelled: the model and the oracle "
         "receive the harness's own Floyd-Warshall matrix, which is compared with the "
         "implementation's blocks",
-        "interregional_betweenness (delegate of cross_/internal_betweenness) is checked by the "
-        "oracle only, nsi_cross_betweenness against Network.nsi_betweenness of a fresh object",
+        "the kernel _nsi_betweenness behind the three betweenness delegates is C03's model "
+        "(Pyunicorn.NetBetw, imported): its forward/backward sweeps = pair dependencies is C03's "
+        "open proof item; here it is compared with the definition inside Lean on every case and "
+        "with the implementation",
         "Pyunicorn.Net (model of Network.degree / average_path_length / closeness / "
         "local_clustering / transitivity used by the whole_* theorems) is tied to the "
         "implementation by C03's correspondence, not by this check"]
@@ -802,6 +852,7 @@ def run(ctx):
     model = common.driver(ctx.pid, reqs)
     bad = []
     ncmp = 0
+    defbad, ndef = [], 0
     for (idx, weighted), ans in zip(metas, model):
         c, L1, L2 = cases[idx]
         res, resw = impl_results[idx]
@@ -822,6 +873,28 @@ def run(ctx):
                              f"w={enc_vec(c.w)} L1={L1} L2={L2} :: model={mv[:120]} impl={str(iv)[:120]}"
                              for nm, wt, c, L1, L2, iv, mv in bad[:6]))
     ctx.extra["method_results_compared"] = ncmp
+    # the hypothesis of `nsiCrossBetweenness_eq_def_partial`, discharged on a sample of the cases:
+    # the kernel model and the published double sum over enumerated shortest paths (exponential
+    # time), both in exact rationals inside Lean
+    small = [i for i, (c, L1, L2) in enumerate(cases) if c.n <= 6 and not c.directed]
+    mid = [i for i, (c, L1, L2) in enumerate(cases) if 7 <= c.n <= 8 and not c.directed]
+    pick = rng.sample(small, min(len(small), 90 if quick else 900)) \
+        + rng.sample(mid, min(len(mid), 4 if quick else 40))
+    dreqs = ["betwdef" + request(cases[i][0], cases[i][1], cases[i][2], cases[i][0].Du)[3:]
+             for i in pick]
+    for i, ans in zip(pick, common.driver(ctx.pid, dreqs)):
+        c, L1, L2 = cases[i]
+        got = dict(kv.split("=", 1) for kv in ans.split("|"))
+        for nm in BETWEENNESS:
+            ndef += 1
+            if got[nm] != got[nm + "_def"] or got[nm].startswith("raise") or got[nm] == "bad-request":
+                defbad.append((nm, c, L1, L2, got[nm], got[nm + "_def"]))
+    ctx.obligation(f"model-internal: Lean model of the kernel behind cross_/internal_/nsi_cross_"
+                   f"betweenness == the published double sum over enumerated shortest paths, exact "
+                   f"rationals ({ndef} vectors)", "correspondence", not defbad,
+                   "\n".join(f"{nm} A={enc_mat(c.A)} w={enc_vec(c.w)} L1={L1} L2={L2} :: "
+                             f"kernel={a[:120]} def={b[:120]}" for nm, c, L1, L2, a, b in defbad[:5]))
+    ctx.extra["betweenness_def_vectors"] = ndef
 
     # ------------------------------------------------------------------
     # kernel boundary
@@ -888,6 +961,7 @@ def run(ctx):
     ccn_checks(ctx, quick)
     net_correspondence(ctx, nets)
     width_correspondence(ctx)
+    accumulation_correspondence(ctx)
     subclass_checks(ctx, quick)
     frame_checks(ctx, nets)
     hub_checks(ctx, quick)
@@ -901,7 +975,10 @@ def run(ctx):
 
 NET_METHODS = ["n_links", "link_density", "nsi_degree", "nsi_local_clustering",
                "nsi_global_clustering", "nsi_transitivity", "nsi_closeness",
-               "nsi_average_path_length"]
+               "nsi_average_path_length",
+               # round 4
+               "global_efficiency", "interregional_betweenness", "nsi_betweenness", "path_lengths"]
+NET_METHODS_W = ["global_efficiency_w", "closeness_w", "closeness_conv"]
 
 
 def net_correspondence(ctx, nets):
@@ -912,9 +989,20 @@ def net_correspondence(ctx, nets):
     reqs, impls = [], []
     for c in nets:
         net = c.net
+        from pyunicorn.core import Network
         reqs.append(" ".join(["net", "1" if c.directed else "0", str(c.n), enc_mat(c.A),
-                              enc_vec(c.w), enc_mat(c.Du)]))
+                              enc_vec(c.w), enc_mat(c.Du), enc_mat(c.Dw)]))
+        haslinks = any(any(r) for r in c.A)
         impls.append({
+            "global_efficiency": call(lambda: Network.global_efficiency(net)),
+            "interregional_betweenness": call(lambda: Network.interregional_betweenness(net)),
+            "nsi_betweenness": call(net.nsi_betweenness),
+            "path_lengths": call(net.path_lengths),
+            "global_efficiency_w": call(lambda: Network.global_efficiency(net, "la"))
+            if haslinks else None,
+            "closeness_w": call(lambda: net.closeness("la")) if haslinks else None,
+            "closeness_conv": call(lambda: net.internal_closeness(list(range(c.n)), "la"))
+            if haslinks else None,
             "n_links": call(lambda: net.n_links),
             "link_density": call(lambda: net.link_density),
             "nsi_degree": call(net.nsi_degree),
@@ -927,14 +1015,18 @@ def net_correspondence(ctx, nets):
     bad, ncmp = [], 0
     for c, ans, res in zip(nets, model, impls):
         got = dict(kv.split("=", 1) for kv in ans.split("|"))
-        for nm in NET_METHODS:
+        for nm in NET_METHODS + NET_METHODS_W:
+            if res[nm] is None:
+                continue   # weighted path lengths of an edgeless graph (igraph fails: C05)
             ncmp += 1
             if not same(res[nm], parse_model(got[nm])):
                 bad.append((nm, c, got[nm], res[nm]))
     ctx.count("net-methods-compared", ncmp)
     ctx.obligation(f"correspondence: Lean models of Network.n_links / link_density / nsi_degree / "
                    f"nsi_local_clustering / nsi_global_clustering / nsi_transitivity / nsi_closeness "
-                   f"/ nsi_average_path_length == the Network methods ({ncmp} results on "
+                   f"/ nsi_average_path_length / global_efficiency / closeness(link_attribute) / "
+                   f"interregional_betweenness / nsi_betweenness / path_lengths (BFS) == the "
+                   f"Network methods ({ncmp} results on "
                    f"{len(nets)} networks)",
                    "correspondence", not bad,
                    "\n".join(f"{nm} directed={c.directed} A={enc_mat(c.A)} w={enc_vec(c.w)} :: "
@@ -970,6 +1062,49 @@ def width_correspondence(ctx):
                    "correspondence", not bad,
                    "\n".join(f"{reqs[i][:200]} :: model={model[i][:200]} numpy={exp[i][:200]}"
                              for i in bad))
+
+
+def accumulation_correspondence(ctx):
+    """`sumW m l` (Lean: every partial sum wrapped into [-m, m)) against numpy's reduction with an
+    accumulator of that type (`np.add.reduce(arr, dtype=dt)`), the 127/128 and 32767/32768
+    boundaries included; and numpy's default rule itself: the sum of an int8 / int16 / bool array
+    accumulates in (and returns) the 64-bit platform integer"""
+    rng = ctx.rng
+    reqs, exp = [], []
+    for dt, bits in ((np.int8, 8), (np.int16, 16), (np.int32, 32), (np.int64, 64)):
+        m = 2 ** (bits - 1)
+        rows = [[1] * 127, [1] * 128, [1] * 129, [1] * 300, [0, 1] * 200, [127, 1], [100, 27, 1]]
+        rows += [[rng.randrange(0, 2) for _ in range(rng.randrange(1, 400))] for _ in range(6)]
+        rows += [[rng.randrange(0, 128) for _ in range(rng.randrange(1, 40))] for _ in range(6)]
+        if bits >= 16:
+            rows += [[1] * 32767, [1] * 32768, [32767, 1], [127] * 300]
+        for r in rows:
+            arr = np.array(r, dtype=dt)
+            with np.errstate(all="ignore"), warnings.catch_warnings():
+                warnings.simplefilter("ignore")
+                v = np.add.reduce(arr, dtype=dt)
+            reqs.append(f"sumw {m} " + ",".join(map(str, r)))
+            exp.append(str(int(v)))
+            ctx.count(f"width:int{bits}-accumulations")
+    model = common.driver(ctx.pid, reqs)
+    bad = [i for i in range(len(reqs)) if model[i] != exp[i]]
+    ctx.obligation(f"correspondence: Lean sumW == numpy add.reduce with an int8 / int16 / int32 / "
+                   f"int64 accumulator ({len(reqs)} reductions)", "correspondence", not bad,
+                   "\n".join(f"{reqs[i][:120]} :: model={model[i]} numpy={exp[i]}" for i in bad[:5]))
+    # the default accumulator (the hypothesis of crossOutDegree_int64_accumulation)
+    wrong = []
+    for dt in (np.int8, np.int16, np.uint8, np.bool_):
+        for shape, axis in (((3, 300), 1), ((300, 3), 0)):
+            a = np.ones(shape, dtype=dt)
+            r = a.sum(axis=axis)
+            r2 = np.sum(a, axis=axis)
+            ctx.count("width:default-accumulator")
+            if r.dtype.kind not in "iu" or r.dtype.itemsize < 8 or not (r == 300).all() \
+                    or r2.dtype != r.dtype:
+                wrong.append((np.dtype(dt).name, shape, str(r.dtype), r.tolist()[:3]))
+    ctx.obligation("numpy accumulates sums of int8 / int16 / uint8 / bool arrays in a 64-bit "
+                   "integer (row and column sums of a 3x300 block of ones = 300)",
+                   "correspondence", not wrong, str(wrong))
 
 
 def subclass_checks(ctx, quick):
@@ -1234,7 +1369,9 @@ def replay_of(c, L1, L2, **kw):
 def oracle_case(ctx, c, L1, L2, res, resw):
     o = Oracle(c.n, c.directed, c.A, c.w, c.la, c.Du, c.Dw)
     for nm, iv in res.items():
-        if c.directed and nm in CLUSTERING:
+        if c.directed and (nm in CLUSTERING or nm in BETWEENNESS):
+            # triangle measures: undirected only; the betweenness kernel refuses directed networks
+            # (AssertionError in Network._nsi_betweenness; compared with the model's token)
             continue
         exp = shape_exact(getattr(o, nm)(L1, L2))
         if not same(iv, exp):
@@ -1310,7 +1447,8 @@ def relations(ctx, cases, impl_results, IN, quick):
         for nm in ["cross_transitivity_sparse", "cross_local_clustering_sparse",
                    "cross_global_clustering_sparse", "cross_degree", "internal_degree",
                    "cross_average_path_length", "nsi_cross_degree", "cross_transitivity",
-                   "internal_adjacency", "internal_link_attribute"]:
+                   "internal_adjacency", "internal_link_attribute", "cross_betweenness",
+                   "internal_betweenness", "nsi_cross_betweenness"]:
             got = call(t[nm])
             ctx.count("relation:array-node-lists")
             if not impl_close(res[nm], got):
@@ -1418,6 +1556,17 @@ def whole_network(ctx, c, rng):
             ("nsi_cross_transitivity", single(net.nsi_transitivity)),
             ("nsi_cross_global_clustering", single(net.nsi_global_clustering)),
         ]
+    if not c.directed:
+        from pyunicorn.core import Network as _Net
+        # round 4: the betweenness delegates against Network's own defaults (every node a source
+        # and a target) and against igraph's betweenness (each unordered pair counted twice)
+        pairs += [
+            ("cross_betweenness", single(lambda: _Net.interregional_betweenness(net))),
+            ("internal_betweenness", single(lambda: _Net.interregional_betweenness(net))),
+            ("internal_betweenness", scale(single(net.betweenness), 2)),
+            ("nsi_cross_betweenness", single(net.nsi_betweenness)),
+        ]
+    whole_network_r4(ctx, c, perm, t)
     for nm, ref in pairs:
         got = call(t[nm])
         ctx.count("relation:whole-network")
@@ -1435,6 +1584,99 @@ def whole_network(ctx, c, rng):
                      f"single-network measure",
                      replay_of(c, perm, perm, method=nm, single_network=str(ref)[:300],
                                observed=str(got)[:300]))
+
+
+def whole_network_r4(ctx, c, perm, t):
+    """round 4: whole-network relations of the closeness / efficiency / n.s.i. closeness measures
+    under their own conventions (theorems whole_cross_closeness, whole_closeness_rows,
+    singleton_cross_closeness, whole_efficiency_degenerate, whole_global_efficiency_as_mean_local,
+    whole_nsi_closeness_row, whole_nsi_closeness_disconnected), on the implementation's outputs"""
+    from pyunicorn.core import Network
+    net, n = c.net, c.n
+    haslinks = any(any(r) for r in c.A)
+
+    def flat(v):
+        return None if isinstance(v, str) else [float(x) for r in v for x in r]
+
+    def close(a, b):
+        return (math.isnan(a) and math.isnan(b)) or a == b or \
+            abs(a - b) <= TOL * max(2.0 ** -40, abs(a), abs(b))
+
+    def bad(nm, rel, what, **kw):
+        ctx.fail(sig(nm, rel, c), what, replay_of(c, perm, perm, method=nm, **kw))
+
+    for attr, D in ((None, c.Du), ("la", c.Dw)):
+        if attr and not haslinks:
+            continue
+        ta = impl_table(net, perm, perm, attr)
+        cc, ic = flat(call(ta["cross_closeness"])), flat(call(ta["internal_closeness"]))
+        ctx.count("relation:whole-network-r4")
+        if cc is None or ic is None or not all(
+                close(x * (n - 1), y * n) for x, y in zip(cc, ic)):
+            bad("cross_closeness", "whole-network-cross-vs-internal",
+                f"(N-1)*cross_closeness(L, L) != N*internal_closeness(L) for L = {perm} "
+                f"(link_attribute={attr})", cross=str(cc), internal=str(ic))
+        # local / global efficiency: the degenerate limit (zero diagonal)
+        le, ge = flat(call(ta["local_efficiency"])), call(ta["global_efficiency"])
+        ctx.count("relation:whole-network-r4")
+        if le is None or not all(math.isinf(x) and x > 0 for x in le) or flat(ge) != [0.0]:
+            bad("global_efficiency", "whole-network-degenerate-limit",
+                f"local_efficiency(L, L) is not all inf / global_efficiency(L, L) is not 0 for "
+                f"L = {perm} (link_attribute={attr})", local=str(le), observed=str(ge))
+        if n < 2:
+            continue
+        # a node against the rest of the network
+        rows = []
+        for i in range(n):
+            rest = [j for j in range(n) if j != i]
+            if ctx.rng.random() < 0.5:
+                ctx.rng.shuffle(rest)
+            rows.append((flat(call(lambda: net.cross_closeness([i], rest, attr))),
+                         flat(call(lambda: net.local_efficiency([i], rest, attr)))))
+        ic0 = flat(call(lambda: net.internal_closeness(list(range(n)), attr)))
+        ctx.count("relation:node-vs-rest", n)
+        for i in range(n):
+            if rows[i][0] is None or ic0 is None or not close(rows[i][0][0], ic0[i]):
+                bad("cross_closeness", "node-vs-rest-equals-whole-network-closeness",
+                    f"cross_closeness([{i}], all other nodes) differs from "
+                    f"internal_closeness(all nodes)[{i}] (link_attribute={attr})",
+                    node=i, observed=str(rows[i][0]), expected=str(ic0))
+        ge_net = flat(call(lambda: Network.global_efficiency(net, attr)))
+        les = [r[1] for r in rows]
+        if ge_net is None or any(x is None for x in les) or not close(
+                ge_net[0], sum(x[0] for x in les) / n):
+            bad("local_efficiency", "mean-over-nodes-vs-rest-equals-network-global-efficiency",
+                f"Network.global_efficiency(link_attribute={attr}) differs from the mean over all "
+                f"nodes i of local_efficiency([i], all other nodes)", network=str(ge_net),
+                local=str(les))
+        if attr:
+            # Network.closeness (weighted branch: unreachable = N) vs internal_closeness
+            # (unreachable = N - 1): equal on complete rows, strictly smaller otherwise
+            cw = flat(call(lambda: net.closeness(attr)))
+            for i in range(n):
+                complete = all(D[i][j] is not None for j in range(n))
+                ok = cw is not None and ic0 is not None and (
+                    close(cw[i], ic0[i]) if complete else cw[i] < ic0[i])
+                ctx.count("relation:closeness-row-" + ("complete" if complete else "incomplete"))
+                if not ok:
+                    bad("internal_closeness", "whole-network-limit-rowwise",
+                        f"internal_closeness(all nodes, {attr})[{i}] vs Network.closeness({attr})"
+                        f"[{i}]: expected {'equal' if complete else 'strictly larger'}",
+                        node=i, network=str(cw), observed=str(ic0))
+    # n.s.i. closeness, row-wise, directed networks included
+    nc = flat(call(t["nsi_cross_closeness_centrality"]))
+    nn = flat(call(net.nsi_closeness))
+    if n >= 2:
+        for pos, i in enumerate(perm):
+            complete = all(c.Du[i][j] is not None for j in range(n))
+            ok = nc is not None and nn is not None and (
+                close(nc[pos], nn[i]) if complete else (nn[i] == 0.0 and nc[pos] > 0.0))
+            ctx.count("relation:nsi-closeness-row-" + ("complete" if complete else "incomplete"))
+            if not ok:
+                bad("nsi_cross_closeness_centrality", "whole-network-limit-rowwise",
+                    f"nsi_cross_closeness_centrality(L, L)[{pos}] vs Network.nsi_closeness()[{i}]: "
+                    f"expected {'equal' if complete else '0 in Network, positive in the cross measure'}",
+                    node=i, network=str(nn), observed=str(nc))
 
 
 # --------------------------------------------------------------------------
